@@ -528,14 +528,22 @@ Qed.
 
 Definition int_reading (p : pres Z) (g : Z -> pvalue) : pres pvalue :=
   pdo (r, v) <- p; if not_float_tail r then POk r (g v) else PErr.
+Lemma ascii_lower_other c x : 97 <= x <= 122 -> c <> x -> c <> x - 32 -> (ascii_lower c =? x) = false.
+Proof. intros Hx H1 H2. apply N.eqb_neq. intros E. destruct (ascii_lower_inv c x E Hx); contradiction. Qed.
+(* the alternative added by the fix of `-inf`: preceded(char('-'), tag_no_case("inf")) *)
+Definition neg_inf_reading (bs : list N) : pres pvalue :=
+  pmap (fun _ => PVNum (NFloat F_NEG_INF)) (pdo (r, _) <- pchar 45 bs; ptag_no_case [105; 110; 102] r).
+Lemma neg_inf_reading_other c x : c <> 45 -> neg_inf_reading (c :: x) = PErr.
+Proof. intros H. apply N.eqb_neq in H. unfold neg_inf_reading. cbn [pchar]. rewrite H. reflexivity. Qed.
 Lemma path_value_nokw c x : c <> 110 -> c <> 116 -> c <> 102 ->
   path_value (c :: x) =
   palt (int_reading (pu64 (c :: x)) (fun v => PVNum (NUInt (Z.to_N v)))) (fun _ =>
   palt (int_reading (pi64 (c :: x)) (fun v => PVNum (NInt v))) (fun _ =>
-  palt (pmap (fun b => PVNum (NFloat b)) (pdouble (c :: x))) (fun _ => pmap PVStr (pstring (c :: x))))).
+  palt (pmap (fun b => PVNum (NFloat b)) (pdouble (c :: x))) (fun _ =>
+  palt (neg_inf_reading (c :: x)) (fun _ => pmap PVStr (pstring (c :: x)))))).
 Proof.
   intros H1 H2 H3. apply N.eqb_neq in H1. apply N.eqb_neq in H2. apply N.eqb_neq in H3.
-  unfold path_value, int_reading. cbn [ptag]. rewrite H1, H2, H3. reflexivity.
+  unfold path_value, int_reading, neg_inf_reading. cbn [ptag]. rewrite H1, H2, H3. reflexivity.
 Qed.
 
 (* the integer alternatives decline a number that is to be read as a double *)
@@ -592,7 +600,7 @@ Proof.
             (c0 = 110 -> exists r', r0 = 97 :: r' \/ r0 = 65 :: r')).
   { intros c r Hc. exists c, r. split; [reflexivity|]. destruct Hc as [Hc|[->|[->| ->]]]; try (repeat split; try reflexivity; discriminate).
     destruct (D c Hc) as (A1 & A2 & A3 & A4 & A5 & A6 & A7 & A8). repeat split; try assumption. intros X. contradiction (A8 X). }
-  intros [ds Hne Hd|ds Hne Hd|ds Hne Hd|sg neg m ids fds pt te e Hsg Hm He _|t0 Hk|t0 Hk].
+  intros [ds Hne Hd|ds Hne Hd|ds Hne Hd|sg neg m ids fds pt te e Hsg Hm He _|t0 Hk|t0 Hk|t0 Hk]; [| | | | | |apply G; tauto].
   - destruct (digits_head ds Hne Hd) as (d & r & -> & Hdd). apply G. tauto.
   - apply G. tauto.
   - apply G. tauto.
@@ -616,7 +624,7 @@ Theorem number_complete t n rest : number_text t n -> ends_number rest -> path_v
 Proof.
   intros Hn Hr. destruct (ends_number_facts rest Hr) as [Hnd Hnf].
   destruct (number_text_head t n Hn) as (c0 & r0 & E0 & _ & _ & _ & _ & _ & N116 & N102 & Hn110).
-  destruct Hn as [ds Hne Hd|ds Hne Hd Hv|ds Hne Hd Hv|sg neg m ids fds pt te e Hsg Hm He Hx|t0 Hk|t0 Hk].
+  destruct Hn as [ds Hne Hd|ds Hne Hd Hv|ds Hne Hd Hv|sg neg m ids fds pt te e Hsg Hm He Hx|t0 Hk|t0 Hk|t0 Hk].
   - assert (N110 : c0 <> 110) by (intros ->; destruct (digits_head ds Hne Hd) as (d & r & E & Hdd); rewrite E in E0; injection E0 as -> _; discriminate Hdd).
     rewrite E0. cbn [app]. rewrite (path_value_nokw c0 _ N110 N116 N102). change (c0 :: r0 ++ rest) with ((c0 :: r0) ++ rest). rewrite <- E0.
     unfold int_reading, pu64.
@@ -647,6 +655,10 @@ Proof.
   - destruct (keyword3 110 97 110 t0 Hk ltac:(lia) ltac:(lia) ltac:(lia)) as (a & b & c & -> & Ha & Hb & Hc).
     destruct Ha as [-> | ->], Hb as [-> | ->], Hc as [-> | ->]; reflexivity.
   - destruct (keyword3 105 110 102 t0 Hk ltac:(lia) ltac:(lia) ltac:(lia)) as (a & b & c & -> & Ha & Hb & Hc).
+    destruct Ha as [-> | ->], Hb as [-> | ->], Hc as [-> | ->]; reflexivity.
+  - (* -inf: u64 and i64 find no digit after the sign, double finds no mantissa and reads nan / inf only without a sign;
+       the alternative added by the fix is reached and takes it *)
+    destruct (keyword3 105 110 102 t0 Hk ltac:(lia) ltac:(lia) ltac:(lia)) as (a & b & c & -> & Ha & Hb & Hc).
     destruct Ha as [-> | ->], Hb as [-> | ->], Hc as [-> | ->]; reflexivity.
 Qed.
 
@@ -789,15 +801,20 @@ Section Atoms.
 End Atoms.
 
 (* ================================================================== a sign in front of an operand *)
-Lemma signed_not_literal rp s a y : s = 43 \/ s = 45 -> is_digit a = false -> a <> 46 -> inner_expr rp (s :: a :: y) = PErr.
+Lemma signed_not_literal rp s a y : s = 43 \/ s = 45 -> is_digit a = false -> a <> 46 -> (s = 45 -> a <> 105 /\ a <> 73) ->
+  inner_expr rp (s :: a :: y) = PErr.
 Proof.
-  intros Hs Ha Hd. unfold inner_expr. rewrite expr_paths_fail by (destruct Hs; subst; discriminate). cbn [pmap pbind palt].
+  intros Hs Ha Hd Hi. unfold inner_expr. rewrite expr_paths_fail by (destruct Hs; subst; discriminate). cbn [pmap pbind palt].
   assert (M : fmant (a :: y) = PErr).
   { unfold fmant. cbn [take_digits]. rewrite Ha. cbn [rev]. kill_lit a. exfalso; apply Hd; reflexivity. }
   destruct Hs as [-> | ->]; rewrite path_value_nokw by discriminate; unfold int_reading, pu64, pi64, pint, pdouble; rewrite float_parts_eq;
     cbn [fsign int_digits]; change (is_digit 43) with false; change (is_digit 45) with false; cbv iota;
     change (43 =? 43) with true; change (45 =? 43) with false; change (45 =? 45) with true; cbv iota;
-    rewrite Ha, M; reflexivity.
+    rewrite Ha, M; [reflexivity|].
+  (* a minus sign: the new alternative declines as well, the next byte is not an i or I *)
+  destruct (Hi eq_refl) as [N105 N73]. unfold neg_inf_reading. cbn [pchar pbind pmap palt ptag_no_case]. change (45 =? 45) with true. cbv iota.
+  cbn [pbind ptag_no_case]. change (ascii_lower 105) with 105.
+  rewrite (ascii_lower_other a 105 ltac:(lia) N105 N73). reflexivity.
 Qed.
 
 (* an unsigned number spelling with a sign in front is again a number spelling *)
@@ -809,7 +826,8 @@ Proof.
   { destruct Hc as [Hc | ->]; [|repeat split; discriminate]. unfold is_digit in Hc. apply andb_true_iff in Hc. destruct Hc as [H1 H2].
     apply N.leb_le in H1. apply N.leb_le in H2. repeat split; lia. }
   destruct NS as (N43 & N45 & N110 & N78 & N105 & N73).
-  destruct Hn as [ds Hne Hd Hv|ds Hne Hd Hv|ds Hne Hd Hv|sg neg m ids fds pt te e Hsg Hm He Hx|t0 Hk|t0 Hk].
+  destruct Hn as [ds Hne Hd Hv|ds Hne Hd Hv|ds Hne Hd Hv|sg neg m ids fds pt te e Hsg Hm He Hx|t0 Hk|t0 Hk|t0 Hk];
+    [| | | | | |exfalso; injection E as E _; apply N45; symmetry; exact E].
   - destruct Hs as [-> | ->].
     + destruct (Z_lt_dec (digits_val ds 0) two63) as [L|L]; [eexists; apply (X_N_plus ds); assumption|].
       eexists. replace (43 :: ds) with ([43] ++ ds ++ []) by (cbn [app]; rewrite app_nil_r; reflexivity).
@@ -834,6 +852,25 @@ Proof.
     destruct Ha; [apply N105|apply N73]; assumption.
 Qed.
 
+(* the word inf with a minus sign in front is again a number spelling (since the fix of `-inf`) *)
+Lemma signed_inf t n : number_text t n -> (exists c r, t = c :: r /\ (c = 105 \/ c = 73)) -> exists n', number_text (45 :: t) n'.
+Proof.
+  intros Hn (c & r & E & Hc).
+  assert (NS : is_digit c = false /\ c <> 43 /\ c <> 45 /\ c <> 46 /\ c <> 110 /\ c <> 78) by (destruct Hc as [-> | ->]; repeat split; discriminate).
+  destruct NS as (Nd & N43 & N45 & N46 & N110 & N78).
+  destruct Hn as [ds Hne Hd Hv|ds Hne Hd Hv|ds Hne Hd Hv|sg neg m ids fds pt te e Hsg Hm He Hx|t0 Hk|t0 Hk|t0 Hk].
+  - exfalso. destruct (digits_head ds Hne Hd) as (d & r' & E' & Hdd). rewrite E' in E. injection E as -> _. rewrite Hdd in Nd. discriminate Nd.
+  - exfalso. injection E as E _. apply N45. symmetry. exact E.
+  - exfalso. injection E as E _. apply N43. symmetry. exact E.
+  - exfalso. destruct Hsg; cbn [app] in E; try (injection E as E _; first [apply N43; symmetry; exact E|apply N45; symmetry; exact E]).
+    destruct (mantissa_head m ids fds pt te Hm) as (c' & r' & E' & Hc'). rewrite E' in E. injection E as -> _.
+    destruct Hc' as [Hc'|Hc']; [rewrite Hc' in Nd; discriminate Nd|contradiction].
+  - exfalso. destruct (keyword_head 110 _ t0 Hk ltac:(lia)) as (a & r1 & E1 & Ha & _). rewrite E1 in E. injection E as E _. subst a.
+    destruct Ha; [apply N110|apply N78]; assumption.
+  - eexists. apply X_N_neg_inf. exact Hk.
+  - exfalso. injection E as E _. apply N45. symmetry. exact E.
+Qed.
+
 Section Atoms2.
   Variable c : bool.
   Variable prec : list N -> pres path.
@@ -853,20 +890,27 @@ Section Atoms2.
   Proof.
     intros Hs Hw Hx Hf.
     assert (Hss : is_space s = false) by (destruct Hs; subst; reflexivity).
-    assert (A : forall a y, w ++ tx ++ rest = a :: y -> is_digit a = false -> a <> 46 ->
+    assert (A : forall a y, w ++ tx ++ rest = a :: y -> is_digit a = false -> a <> 46 -> (s = 45 -> a <> 105 /\ a <> 73) ->
                 ws_around (inner_expr rp) (s :: w ++ tx ++ rest) = PErr).
-    { intros a y E Ha Hd. unfold ws_around. cbn [multispace0]. rewrite Hss, E, (signed_not_literal rp s a y Hs Ha Hd). reflexivity. }
+    { intros a y E Ha Hd Hi. unfold ws_around. cbn [multispace0]. rewrite Hss, E, (signed_not_literal rp s a y Hs Ha Hd Hi). reflexivity. }
     destruct Hw as [|c0 w Hc0 Hw].
-    2:{ apply declined_of_error. apply (A c0 (w ++ tx ++ rest) eq_refl); destruct Hc0 as [->|[->|[->| ->]]]; try reflexivity; discriminate. }
+    2:{ apply declined_of_error. apply (A c0 (w ++ tx ++ rest) eq_refl); destruct Hc0 as [->|[->|[->| ->]]]; try reflexivity; try discriminate; intros _; split; discriminate. }
     cbn [app]. cbn [app] in A.
-    destruct Hx as [ts ps _|ts ps _ _|t v Hl]; try (apply declined_of_error; apply (A _ _ eq_refl); [reflexivity|discriminate]).
-    destruct Hl as [| | |t n Hn|t q Hq]; try (apply declined_of_error; apply (A _ _ eq_refl); [reflexivity|discriminate]).
-    2:{ destruct (quoted_name_first t q Hq) as (r & ->). apply declined_of_error. apply (A _ _ eq_refl); [reflexivity|discriminate]. }
+    destruct Hx as [ts ps _|ts ps _ _|t v Hl]; try (apply declined_of_error; apply (A _ _ eq_refl); [reflexivity|discriminate|intros _; split; discriminate]).
+    destruct Hl as [| | |t n Hn|t q Hq]; try (apply declined_of_error; apply (A _ _ eq_refl); [reflexivity|discriminate|intros _; split; discriminate]).
+    2:{ destruct (quoted_name_first t q Hq) as (r & ->). apply declined_of_error. apply (A _ _ eq_refl); [reflexivity|discriminate|intros _; split; discriminate]. }
     destruct (number_text_head t n Hn) as (a & r & E & _).
-    assert (Hnum : (is_digit a = true \/ a = 46) \/ (is_digit a = false /\ a <> 46)).
-    { destruct (is_digit a); [left; left; reflexivity|]. destruct (N.eq_dec a 46); [left; right; assumption|right; split; [reflexivity|assumption]]. }
-    destruct Hnum as [Hnum|[Ea Na]]; [|apply declined_of_error; apply (A a (r ++ rest)); [rewrite E; reflexivity|exact Ea|exact Na]].
-    destruct (signed_number t n s Hn ltac:(exists a, r; split; [exact E|exact Hnum]) Hs) as (n' & Hn').
+    (* the sign and the number spelling after it form a number spelling again (a digit or a point follows; or, since the
+       fix of `-inf`, a minus sign and the word inf), or no literal starts here at all *)
+    assert (Hnum : ((is_digit a = true \/ a = 46) \/ (s = 45 /\ (a = 105 \/ a = 73))) \/ (is_digit a = false /\ a <> 46 /\ (s = 45 -> a <> 105 /\ a <> 73))).
+    { destruct (is_digit a); [left; left; left; reflexivity|]. destruct (N.eq_dec a 46); [left; left; right; assumption|].
+      destruct (N.eq_dec s 45) as [Es|Es]; [|right; repeat split; try assumption; intros X; contradiction].
+      destruct (N.eq_dec a 105); [left; right; tauto|]. destruct (N.eq_dec a 73); [left; right; tauto|]. right. repeat split; assumption. }
+    destruct Hnum as [Hnum|(Ea & Na & Ni)]; [|apply declined_of_error; apply (A a (r ++ rest)); [rewrite E; reflexivity|exact Ea|exact Na|exact Ni]].
+    assert (Hsn : exists n', number_text (s :: t) n').
+    { destruct Hnum as [Hnum|[-> Hi]]; [apply (signed_number t n s Hn ltac:(exists a, r; split; [exact E|exact Hnum]) Hs)|].
+      apply (signed_inf t n Hn). exists a, r. split; [exact E|exact Hi]. }
+    destruct Hsn as (n' & Hn').
     pose proof (operand_complete c (s :: t) (EValue (PVNum n')) rest (OP_literal c _ _ (L_number _ _ Hn')) (atom_operand_follow rest Hf)
                   (s :: t ++ rest) ltac:(cbn [multispace0]; rewrite Hss; reflexivity)) as L.
     rewrite L. cbn [pbind]. destruct (atom_follow_no_op rest Hf) as [B P]. rewrite B, P. split; reflexivity.
@@ -1185,8 +1229,6 @@ Theorem rooted_complete t ps : jp_rooted_text t ps -> parse_json_path t = Ok ps.
 Proof. intros [w0 ts ps0 w1 H0 Hs H1|w0 t0 e w1 H0 Ho H1]; [apply rooted_path_complete|apply predicate_complete]; assumption. Qed.
 
 (* ---- the unrooted forms, outside the texts that start like an expression *)
-Lemma ascii_lower_other c x : 97 <= x <= 122 -> c <> x -> c <> x - 32 -> (ascii_lower c =? x) = false.
-Proof. intros Hx H1 H2. apply N.eqb_neq. intros E. destruct (ascii_lower_inv c x E Hx); contradiction. Qed.
 
 Lemma path_value_unlike c y : ~ starts_like_an_expression (c :: y) -> c <> 43 -> c <> 45 -> c <> 34 -> path_value (c :: y) = PErr.
 Proof.
@@ -1205,6 +1247,7 @@ Proof.
   unfold pdouble. rewrite F. cbn [pmap pbind palt ptag_no_case].
   change (ascii_lower 110) with 110. change (ascii_lower 105) with 105.
   rewrite (ascii_lower_other c 110 ltac:(lia) K1 K4), (ascii_lower_other c 105 ltac:(lia) K5 K6). cbn [pmap pbind palt].
+  rewrite (neg_inf_reading_other c y N45). cbn [palt].
   rewrite (pstring_not_quote c y N34). reflexivity.
 Qed.
 
